@@ -112,7 +112,9 @@ func (e *Env) RunTLC(o TLCOpts) (*TLCResult, error) {
 	cmd := exec.CommandContext(ctx, "tlc", targs...)
 	cmd.Dir = dir
 	cmd.Env = os.Environ()
-	jto := "-Xss256m"
+	// TLC unpacks its standard modules into a directory below java.io.tmpdir on every run and leaves it there:
+	// keep that inside the scratch directory of this run (removed on exit)
+	jto := "-Xss256m -Djava.io.tmpdir=" + meta
 	if o.DFS {
 		jto += " -Dtlc2.tool.queue.IStateQueue=StateDeque"
 	}
